@@ -609,6 +609,10 @@ def conc_extra(pid, tier, seed):
         jobs.append((["conc-stress", "--kind", kind, "--count", 30 if quick else 100, "--rounds", 10 if quick else 40, "--seed", seed * 10 + i], "MemcLin",
                      "stress-%d.ndjson" % i, "OS-thread stress %s #%d" % (kind, i), None))
     extra = {}
+    if pid == "C19":
+        # quiet commands in the concurrent model: linearizable (silence rules included) and serially equivalent
+        r = run.add_mc("MC_Conc", "MC_Conc_C19_2", workers=8)
+        extra["mc_runs"] = [{"cfg": r["cfg"], "distinct": r["distinct"], "generated": r["generated"], "wall_s": round(r["wall_s"], 1)}]
     if pid == "C08":
         # the concurrent model with flush actions: linearizable AND equivalent to a serial run of the sequential model;
         # without the stripe locks around flush the second must fail (a flush inside an append)
